@@ -807,13 +807,18 @@ pub fn check18(c: &Case18, obs: &mut Obs) -> Verdict {
     }
     let cfg = tool::all_years_config();
     let fx = crate::props::c15::fx();
+    let mut f17 = false;
     let ra = tool::calc_with(&crate::led::from_core(&parsed), None, Some(fx), &cfg);
     let rb = tool::calc_with(&crate::led::from_core(&parsed_p), None, Some(fx), &cfg);
     match (&ra, &rb) {
         (tool::Outcome::Ok(a), tool::Outcome::Ok(b)) => {
             obs.class("report_computed");
-            if let Err(e) = tool::reports_equivalent(a, b, obs) {
-                return Verdict::fail(format!("row order changes the report: {e}\n--- a ---\n{}\n--- b ---\n{}", out.cgt_content, out_p.cgt_content));
+            match tool::equivalent_or_f17(a, &crate::led::from_core(&parsed), b, &crate::led::from_core(&parsed_p), obs) {
+                tool::Equiv::Same => {}
+                tool::Equiv::F17 => f17 = true,
+                tool::Equiv::Different(e) => {
+                    return Verdict::fail(format!("row order changes the report: {e}\n--- a ---\n{}\n--- b ---\n{}", out.cgt_content, out_p.cgt_content));
+                }
             }
         }
         (tool::Outcome::Err(_), tool::Outcome::Err(_)) => {}
@@ -870,6 +875,9 @@ pub fn check18(c: &Case18, obs: &mut Obs) -> Verdict {
     }
     obs.class_if(used_chunks >= 2, "2+_chunks");
     obs.nontrivial = has_cancel || has_asof || has_ctrl || used_chunks >= 2;
+    if f17 {
+        return tool::f17_verdict();
+    }
     Verdict::Pass
 }
 
